@@ -718,7 +718,7 @@ private:
         }
         if (command == "STOP") {
             metrics_.command_stop_requests_total.fetch_add(1, std::memory_order_relaxed);
-            handle_stop(client, remote_identity);
+            handle_stop(client, request, remote_identity);
             return;
         }
         if (command == "LIST") {
@@ -807,7 +807,26 @@ private:
                   std::move(log_fields));
     }
 
-    void handle_stop(NativeSocket client, const std::string& remote_identity) {
+    void handle_stop(NativeSocket client, const ParsedRequest& request, const std::string& remote_identity) {
+        std::optional<std::string> control_token;
+        {
+            std::scoped_lock lock(node_mutex_);
+            control_token = node_.config().control_token;
+        }
+        if (control_token.has_value()) {
+            const auto token_it = request.fields.find("TOKEN");
+            if (token_it == request.fields.end() || !constant_time_equal(*control_token, token_it->second)) {
+                auto error = make_error("ERR_STOP_UNAUTHENTICATED",
+                                        token_it == request.fields.end() ? "Control token required" : "Invalid control token",
+                                        "Provide --control-token when invoking the CLI");
+                log_event(StructuredLogger::Level::Warning,
+                          "control.command.stop",
+                          {{"remote", remote_identity}, {"status", "error"}, {"code", "ERR_STOP_UNAUTHENTICATED"}});
+                send_response(client, std::move(error), false);
+                return;
+            }
+        }
+
         const bool should_stop_transport = !transport_stopped_.exchange(true, std::memory_order_acq_rel);
 
         bool invoked_shutdown = false;
@@ -1257,6 +1276,29 @@ private:
             return;
         }
 
+        std::optional<std::string> control_token;
+        {
+            std::scoped_lock lock(node_mutex_);
+            control_token = node_.config().control_token;
+        }
+        const auto token_it = fields.find("TOKEN");
+        if (control_token.has_value()) {
+            if (token_it == fields.end()) {
+                auto error = make_error("ERR_FETCH_UNAUTHENTICATED",
+                                        "Control token required",
+                                        "Provide --control-token when invoking the CLI");
+                respond_error(std::move(error), "auth_missing", true, false);
+                return;
+            }
+            if (!constant_time_equal(*control_token, token_it->second)) {
+                auto error = make_error("ERR_FETCH_UNAUTHENTICATED",
+                                        "Invalid control token",
+                                        "Verify the shared secret configured on the daemon");
+                respond_error(std::move(error), "auth_invalid", true, false);
+                return;
+            }
+        }
+
         std::optional<ChunkData> chunk;
         {
             std::scoped_lock lock(node_mutex_);
@@ -1279,29 +1321,8 @@ private:
         }
 
         if (stream_to_client) {
-            std::optional<std::string> control_token;
-            {
-                std::scoped_lock lock(node_mutex_);
-                control_token = node_.config().control_token;
-            }
-
-            const auto token_it = fields.find("TOKEN");
             std::string rate_identity = remote_identity;
             if (control_token.has_value()) {
-                if (token_it == fields.end()) {
-                    auto error = make_error("ERR_FETCH_UNAUTHENTICATED",
-                                            "Control token required",
-                                            "Provide --control-token when invoking the CLI");
-                    respond_error(std::move(error), "auth_missing", true, false);
-                    return;
-                }
-                if (!constant_time_equal(*control_token, token_it->second)) {
-                    auto error = make_error("ERR_FETCH_UNAUTHENTICATED",
-                                            "Invalid control token",
-                                            "Verify the shared secret configured on the daemon");
-                    respond_error(std::move(error), "auth_invalid", true, false);
-                    return;
-                }
                 rate_identity = hashed_token_identity(token_it->second);
             } else if (token_it != fields.end()) {
                 rate_identity = hashed_token_identity(token_it->second);
